@@ -195,7 +195,7 @@ def run_case(ctx: Ctx, case: Dict[str, Any]) -> None:
 
 
 def list_case(rng) -> Dict[str, Any]:  # noqa: C901
-    style = gen.pick_style(rng)
+    style = gen.pick_style(rng) if rng.random() < 0.85 else "wide"
     fam = rng.choice(["random", "duplicates", "scalings", "combinations", "via_context", "tight", "infeasible",
                       "random", "near_tight", "no_context"])
     nv = rng.randint(1, 5)
